@@ -211,6 +211,12 @@ void standards_and_apply(Ctx &c) {
             PBT_CHECK(c, r2 == -1 && e2 == EINVAL, "C10.shortfall_accepted", "replacing the frequency vector by a band [%g, %g] that an already added vector standard (cover [%g, %g]) misses by >= 5%% was accepted (rc %d errno %d)", nlo, nhi, slo, shi, r2, e2);
             vc.log.clear();
             PBT_CHECK(c, vnacal_new_solve(vnp) == 0, "C10.refused_regrid_changed_object", "after the refused replacement the calibration no longer solves: %s", vc.log.text().c_str());
+            // ... and the refused band must not have replaced the accepted one: the calibration made now still has the old frequencies
+            int cj = vnacal_add_calibration(vc.p, "after-refusal", vnp); cj = vnacal_find_calibration(vc.p, "after-refusal");
+            PBT_CHECK(c, cj >= 0, "C10.add_calibration", "add_calibration failed");
+            const double *fv2 = vnacal_get_frequency_vector(vc.p, cj);
+            PBT_CHECK(c, fv2 && vnacal_get_frequencies(vc.p, cj) == F, "C10.refused_regrid_changed_object", "calibration after the refused replacement has %d frequencies, expected %d", vnacal_get_frequencies(vc.p, cj), F);
+            for (int i = 0; i < F; i++) PBT_CHECK(c, fv2[i] == cal[i], "C10.refused_regrid_changed_object", "after the REFUSED replacement of the frequency vector the calibration is made at %.17g instead of %.17g (index %d): the refused band was stored", fv2[i], cal[i], i);
         }
         c.nontrivial();
     }
